@@ -72,7 +72,9 @@ def edges_for(run, n, monotone, count, exhaustive):
                                    negative=(not monotone and i % 2 == 0))
         K = gen.knowledge(run.rng, n)
         unk = [c for c in non_min if c not in K]
-        if unk:
+        if unk and n <= 5:
+            out.extend((v, sorted(K), s) for s in unk)       # every edge leaving this knowledge set
+        elif unk:
             out.append((v, sorted(K), run.rng.choice(unk)))
     return out
 
@@ -95,6 +97,13 @@ def main(run):
         if n <= 4:
             for s in sam_picks:
                 run.prove(f"shrinks.sam_apx_1[n={n},s={s}]", S.sc_reveal_shrinks, {"n": n, "computer": "sam_apx_1", "s": s})
+    if quick:
+        # the smallest player count at which a split through mere bounds can beat a split into two known coalitions
+        non_min5 = [c for c in range(32) if c not in minimal(5)]
+        for s in run.rng.sample(non_min5, 5):
+            run.prove(f"shrinks.superadditive_cached[n=5,s={s}]", S.sc_reveal_shrinks, {"n": 5, "computer": "superadditive_cached", "s": s})
+        for s in run.rng.sample(non_min5, 2):
+            run.prove(f"shrinks.superadditive[n=5,s={s}]", S.sc_reveal_shrinks, {"n": 5, "computer": "superadditive", "s": s})
     for n in ((2, 3, 4, 5) if quick else (2, 3, 4, 5, 6)):
         for gap in S.GAPS:
             run.prove(f"gap.{gap}[n={n}]", S.sc_gap_contract, {"n": n, "gap": gap})
@@ -109,7 +118,7 @@ def main(run):
             if comp in ("sam_apx_100", "sam_apx_1000") and n > (3 if quick else 4):
                 continue
             exhaustive = (n == 3) or (n == 4 and not quick and comp in ("superadditive_cached", "sam_apx_1"))
-            count = (12 if n <= 5 else 4) if quick else 60
+            count = (40 if n <= 5 else 6) if quick else 150
             e, f = lattice_check(run, n, comp, edges_for(run, n, mono, count, exhaustive), mono)
             rows.append({"computer": comp, "n": n, "edges": e, "failures": f, "exhaustive_lattice": exhaustive})
     run.bounded.append({"label": "knowledge-lattice edges on the real package", "rows": rows,
